@@ -14,6 +14,7 @@ import (
 )
 
 var vUserPool = []string{"alice", "alice2", "al", "bob", "Bob", "bob.x", "carol@example.org", "d-e_f", "0zero"}
+var vExtNames = []string{"dev.user", "dev.admin", "ops.admin", "ops.user", "x.user.admin", "x.admin.user", "user", "admin", "a.user.user", ".user"[1:] + ".x", "tmp", "x.tmp"}
 var vBadUsers = []string{"", "../x", "a/b", "-x", ".hidden", "x y", "bob\n", "x/../bob", "/abs", "_u", "@u", "b\x00b", "ü"}
 
 func vScratch(tag string) string {
@@ -113,6 +114,11 @@ func runRandomHist(em *vEmitter, r *vRng, idx int, opt vHistOpts) {
 	if r.intn(3) == 0 {
 		users = append(users, strings.Repeat("n", 249), strings.Repeat("m", 250))
 	}
+	if r.intn(3) == 0 {
+		// valid names that contain the file extensions, and each other
+		k := r.intn(len(vExtNames))
+		users = append(users, vExtNames[k], vExtNames[(k+1+r.intn(3))%len(vExtNames)], vExtNames[(k+5+r.intn(3))%len(vExtNames)])
+	}
 	var known [][]byte
 	cur := map[string][]byte{}
 	if opt.plant {
@@ -131,6 +137,9 @@ func runRandomHist(em *vEmitter, r *vRng, idx int, opt vHistOpts) {
 			}
 			eol := "\n"
 			tail := vAuxSamples[r.intn(len(vAuxSamples))]
+			if idx%6 == 5 && i == 1 {
+				tail = vAuxBig[r.intn(len(vAuxBig))] // one user with more than a buffer of auxiliary data
+			}
 			if len(tail) == 0 && r.intn(4) == 0 {
 				eol = ""
 			}
